@@ -23,9 +23,11 @@ import (
 	"encoding/gob"
 	"encoding/json"
 	"fmt"
+	"math"
 	"sort"
 	"strings"
 	"sync"
+	"sync/atomic"
 	"testing"
 	"time"
 
@@ -891,13 +893,54 @@ func (s *searcher) checkNode(n *node, laws bool, ws []*node) {
 	}()
 	// declared read semantics (depends on the history: checked in every state)
 	for i := 0; i < R; i++ {
-		want := modelRead(typ, s.u, n.ev, n.know[i])
-		got := n.reps[i].Read()
+		got := rd(n.reps[i])
 		readN++
+		if typ == "gcounter" {
+			// the true sum of the increments received; a read that fails loudly is always acceptable,
+			// a silent answer must be that sum (which then fits 32 bits)
+			var sum int64
+			for k, e := range n.ev {
+				if n.know[i]&(1<<uint(k)) != 0 {
+					sum += int64(e.op.Amount)
+				}
+			}
+			if got.Equal(loudValue) || (got.IsNumber() && int64(got.AsNumber()) == sum) {
+				continue
+			}
+			key := typ + "/read-semantics"
+			if sum > math.MaxInt32 {
+				key = "gcounter/read-not-sum-of-increments/overflow"
+			} else if n.taint != "" {
+				key = n.taint
+			}
+			s.col.add(key, &candidate{s: s, n: n, law: "read-semantics", observable: true,
+				what: fmt.Sprintf("gcounter replica r%d reads %v but the increments it has received add up to %d (state %s); beyond 32 bits the only acceptable answer is a loud failure", i+1, got, sum, show(typ, n.reps[i]))})
+			continue
+		}
+		want := modelRead(typ, s.u, n.ev, n.know[i])
 		if !got.Equal(want) {
 			key := typ + "/read-semantics"
 			if n.taint != "" {
 				key = n.taint
+			} else if typ == "aworset" && got.IsSet() {
+				// which way is it wrong?  an element missing although one of its adds is not observed by any
+				// remove the replica has received, or an element present although every add is observed
+				missing, extra := false, false
+				for _, el := range s.u.elems {
+					_, inGot := got.AsSet().Get(el)
+					_, inWant := want.AsSet().Get(el)
+					if inWant && !inGot {
+						missing = true
+					}
+					if inGot && !inWant {
+						extra = true
+					}
+				}
+				if missing {
+					key = "aworset/read/add-not-observed-by-remove-lost"
+				} else if extra {
+					key = "aworset/read/element-present-though-every-add-observed-by-a-remove"
+				}
 			}
 			s.col.add(key, &candidate{s: s, n: n, law: "read-semantics", observable: true,
 				what: fmt.Sprintf("%s replica r%d reads %v but the updates it has received give %v (state %s)", typ, i+1, got, want, show(typ, n.reps[i]))})
@@ -1201,6 +1244,9 @@ func (s *searcher) run(workers int, deadline time.Time) *searchResult {
 		for i := range frontier {
 			hasChild := false
 			for j, c := range exps[i].succ {
+				if c == nil {
+					continue // update not offered or failed loudly: no transition
+				}
 				res.Transitions++
 				if seen[exps[i].keys[j]] {
 					continue
@@ -1278,17 +1324,26 @@ func plan(thorough bool) []config {
 	if !thorough {
 		return []config{
 			{Type: "gcounter", Universe: 1, Replicas: 2, Depth: 5},
+			// increments near the 32-bit limit: the read is the true sum or a loud failure, never a wrapped number
+			{Type: "gcounter", Universe: 0, Replicas: 2, Depth: 5, Ops: "big"},
+			{Type: "gcounter", Universe: 0, Replicas: 3, Depth: 4, Ops: "big"},
 			{Type: "gcounter", Universe: 0, Replicas: 3, Depth: 5},
 			{Type: "aworset", Universe: 1, Replicas: 2, Depth: 5},
 			{Type: "lww", Universe: 1, Replicas: 2, Depth: 5},
 			// the time order of updates multiplies the LWW state space: 3 replicas at depth 5 and beyond run in the thorough tier
 			{Type: "lww", Universe: 0, Replicas: 3, Depth: 4},
-			{Type: "aworset", Universe: 0, Replicas: 3, Depth: 5},
+			// two elements, three updating replicas (depth 5 and 6 run in the thorough tier)
+			{Type: "aworset", Universe: 0, Replicas: 3, Depth: 4},
+			// long histories of one element: two updating replicas and one slot that only holds a snapshot
+			// which is delivered later (a delayed, possibly stale or duplicated message)
+			{Type: "aworset", Universe: 0, Replicas: 3, Depth: 8, Elems: 1, Passive: 1, NoGob: true},
 		}
 	}
 	return []config{
 		{Type: "gcounter", Universe: 1, Replicas: 3, Depth: 5},
 		{Type: "gcounter", Universe: 2, Replicas: 3, Depth: 5},
+		{Type: "gcounter", Universe: 0, Replicas: 2, Depth: 8, Ops: "big"},
+		{Type: "gcounter", Universe: 1, Replicas: 3, Depth: 6, Ops: "big"},
 		{Type: "gcounter", Universe: 1, Replicas: 2, Depth: 10},
 		{Type: "gcounter", Universe: 0, Replicas: 3, Depth: 7},
 		{Type: "aworset", Universe: 1, Replicas: 3, Depth: 5},
@@ -1296,8 +1351,10 @@ func plan(thorough bool) []config {
 		{Type: "lww", Universe: 1, Replicas: 3, Depth: 5},
 		{Type: "lww", Universe: 2, Replicas: 3, Depth: 5},
 		{Type: "lww", Universe: 1, Replicas: 2, Depth: 6},
+		{Type: "lww", Universe: 0, Replicas: 3, Depth: 8, Elems: 1, Passive: 1, NoGob: true},
 		{Type: "aworset", Universe: 1, Replicas: 2, Depth: 7},
 		{Type: "aworset", Universe: 0, Replicas: 3, Depth: 6},
+		{Type: "aworset", Universe: 0, Replicas: 3, Depth: 9, Elems: 1, Passive: 1, NoGob: true},
 		{Type: "lww", Universe: 0, Replicas: 3, Depth: 6},
 	}
 }
@@ -1367,10 +1424,11 @@ func TestCheck(t *testing.T) {
 			"searches":                      results,
 			"checks":                        checks,
 			"divergences":                   revalFail,
+			"loud_failures_accepted":        map[string]int64{"reads": loudReads.Load(), "updates": loudUpdates.Load()},
 			"internal_only_differences_not_observable_within_3_steps": unobs,
 			"note": "the model IS the implementation: every state is a tuple of real resources.CRDTValue values and every transition is a call of the real Write / Merge / gob codec; " +
 				"traces_validated_against_impl counts BFS-tree paths (one per leaf state of the tree) re-executed from Init() on fresh values with fresh timestamps and required to reach the stored canonical state (divergences = mismatches)",
-			"bounds": "replicas<=3 (third replica also plays the delayed/duplicated message), updates gcounter {+1,+2}, sets {add,rem}x{e0,e1}, depth = updates+merges per history as listed per search",
+			"bounds": "replicas<=3 (third replica also plays the delayed/duplicated message), updates gcounter {+1,+2} (ops=big: {+1,+2^30,+MaxInt32}), sets {add,rem}x{e0,e1} (elems=1: e0 only), depth = updates+merges per history as listed per search; passive=1: the third replica never updates, it only holds snapshots delivered later",
 		}
 		res.Assumptions = []string{
 			"laws are demanded on jointly reachable replica states (all ordered pairs/triples of the replicas of every reachable tuple state, plus their merges), not on arbitrary pairs from unrelated histories",
